@@ -175,6 +175,47 @@ def is_helper(g: FuncInfo) -> bool:
     return n <= 900
 
 
+def current_field_read(ctx: "Ctx", ev: Event, base: Term, cls: str, attr: str) -> Term:
+    """The term a read of <base>.<attr> yields at the moment of constructor call `ev`
+    (when the field was not stored on the path): versioned by the calls made before."""
+    snap = ev.data.get("ver_snapshot") or {}
+    owner = ctx.cg.attr_owner([cls], attr)
+    ver = snap.get((owner, attr), 0) + snap.get(("?", attr), 0) if owner != "?" else sum(v for (o, a), v in snap.items() if a == attr)
+    return ("attr", base, attr, ver) if ver else ("attr", base, attr)
+
+
+def super_init_forwarding(ctx: "Ctx", param: str) -> List[Tuple[FuncInfo, ast.Call, bool, str]]:
+    """For every constructor in the package that takes `param` and whose base constructor
+    takes it too: does its super().__init__ call hand the parameter on (by keyword, or in
+    the matching position)?  -> (function, call node, ok, what was passed)"""
+    out = []
+    for f in ctx.program.all_functions():
+        if f.name != "__init__" or f.cls is None or param not in f.params:
+            continue
+        base = ctx.program.lookup_super_method(f.cls.name, "__init__")
+        if base is None or param not in base.params:
+            continue
+        calls_ = [n for n in ast.walk(f.node) if isinstance(n, ast.Call) and isinstance(n.func, ast.Attribute) and n.func.attr == "__init__"
+                  and isinstance(n.func.value, ast.Call) and isinstance(n.func.value.func, ast.Name) and n.func.value.func.id == "super"]
+        if not calls_:
+            # the subclass stores the parameter itself or does not chain at all
+            stores_it = any(isinstance(n, ast.Attribute) and isinstance(n.ctx, ast.Store) and n.attr.lstrip("_") == param.lstrip("_") for n in ast.walk(f.node))
+            out.append((f, f.node, stores_it, "no super().__init__ call" + (" (stores it itself)" if stores_it else "")))  # type: ignore[arg-type]
+            continue
+        for c in calls_:
+            passed = None
+            for k in c.keywords:
+                if k.arg == param:
+                    passed = ast.unparse(k.value)
+            if passed is None:
+                bp = [x for x in base.params if x != "self"]
+                i = bp.index(param)
+                if i < len(c.args) and not any(isinstance(a, ast.Starred) for a in c.args):
+                    passed = ast.unparse(c.args[i])
+            out.append((f, c, passed == param, f"{param}={passed}"))
+    return out
+
+
 def caller_ok(ctx: "Ctx", f: FuncInfo, allowed: Callable[[FuncInfo], bool], _seen: Optional[Set[str]] = None) -> bool:
     """Is f an allowed caller/writer, directly or as a private helper all of whose own
     callers are (recursively) allowed?  Extracting code into a helper must not change a
